@@ -90,3 +90,13 @@ check("C05",
       "and payoff dimension > 1 in the multilevel engine, worker pools, regression of convergence rates. Known finding: fixed-level variant with "
       "maximum_level < initial_level raises IndexError.",
       TECH, "DESIGN.md section 3 C05")
+
+check("C06",
+      "Pure part: the real compute_mc_paths_giles / criteria_giles on symbolic variance/cost vectors and rmse (sqrt as UF): sizes are the rounded-up "
+      "real-valued optimum, the real-valued optimum meets the variance share exactly, hence sum V_l/N_l <= (1-theta) rmse^2; theta is read off the "
+      "allocation function itself and the bias tolerance off the comparison the criteria function builds: tau^2 + (1-theta) rmse^2 <= rmse^2. Loop part: "
+      "the real Engine.price on the scripted process with solver-chosen answers never simulates above maximum_level, returns only after a passing bias "
+      "test or at the maximum level, with every level within 1% of its last optimal size.",
+      "Trusted: z3; sqrt axioms; scripted process/criteria as in C05. Bounds: vectors of length <= 2/3; loop histories as C05. Outside: termination for "
+      "unbounded answers; alpha regression. Known findings: zero-cost levels get 0 samples; fall-through exit of the loop right after a level is added.",
+      TECH, "DESIGN.md section 3 C06")
